@@ -93,7 +93,7 @@ func (r *keyring) Lock(passphrase []byte) error {
 	}
 
 	r.locked = true
-	r.passphrase = passphrase
+	r.passphrase = append([]byte(nil), passphrase...)
 	return nil
 }
 
